@@ -46,7 +46,7 @@ int Normaliser::polyAtom(const char *kind, const Poly &p, int rep, int bytes) {
   auto it = polyAtoms.find(key);
   if (it != polyAtoms.end()) return it->second;
   // the representative argument term keeps the atom evaluable; equal polynomials share one atom
-  int t = TT.mk(std::string(kind) == "invpoly" ? "inv" : "sqrt", {rep}, 0, bytes);
+  int t = TT.mk(std::string(kind) == "invpoly" ? "inv" : std::string(kind) == "abspoly" ? "abs" : "sqrt", {rep}, 0, bytes);
   polyAtoms[key] = t; return t;
 }
 Poly Normaliser::atom(int t) { atoms++; if (C) { int ct = C->canon(t); if (ct != t) { const Term &y = TT.t[ct]; if (y.op == TT.OP_C) { Poly p; if (y.k) p[Mono()] = Q((long long)y.k); return p; } t = ct; } } Poly p; p[Mono{{t, 1}}] = Q(1); return p; }
@@ -120,7 +120,19 @@ Poly Normaliser::norm(int t, bool fp) {
   else if (op == "abs" && !fp) {
     Poly pa = norm(x.a[0], false); bool sq = pa.size() == 1 && pa.begin()->second.n > 0;
     if (sq) for (auto &ve : pa.begin()->first) if (ve.second % 2) sq = false;
-    if (sq) r = pa; else r = atom(t);   // |m| = m for an even monomial with positive coefficient: signed overflow is undefined, so m >= 0
+    if (sq) r = pa;   // |m| = m for an even monomial with positive coefficient: signed overflow is undefined, so m >= 0
+    else if (pa.size() == 1) { // |c * m| = |c| * m when every factor of m is an even power or itself an absolute value
+      bool nonneg = true; for (auto &ve : pa.begin()->first) { const Term &vt = TT.t[ve.first]; if (ve.second % 2 && OPS.name(vt.op) != "abs") nonneg = false; }
+      if (nonneg) { Q c = pa.begin()->second; if (c.n < 0) c.n = -c.n; r[pa.begin()->first] = c; } else r = atom(t);
+    }
+    else {
+      auto monoNonneg = [&](const Mono &m) { for (auto &ve : m) { const Term &vt = TT.t[ve.first]; if (ve.second % 2 && OPS.name(vt.op) != "abs") return false; } return true; };
+      bool allPos = !pa.empty(), allNeg = !pa.empty(); for (auto &kv : pa) { if (!monoNonneg(kv.first)) allPos = allNeg = false; if (kv.second.n < 0) allPos = false; else allNeg = false; }
+      if (allPos) r = pa;                                                       // a sum of non-negative terms (no signed overflow)
+      else if (allNeg) { padd(r, pa, -1); }
+      else { Poly key = pa; if (!key.empty() && key.begin()->second.n < 0) { key.clear(); padd(key, pa, -1); } // |p| == |-p|
+        r = atom(polyAtom("abspoly", key, x.a[0], x.bytes)); }
+    }
   }
   else if (x.op == TT.OP_PIECE && !fp && x.k == 0) r = normTrunc(x.a[0], x.bytes);
   else if (op == "sitofp" || op == "fpext" || op == "fptrunc" || (op == "uitofp")) { r = norm(x.a[0], op != "sitofp" && op != "uitofp"); if (op == "fptrunc") { r = atom(t); } }
@@ -190,6 +202,16 @@ int Canon::canon(int t) {
   else if (x.op == TT.OP_FSUB && TT.t[x.a[1]].op == TT.OP_CF && TT.t[x.a[1]].k == 0) r = x.a[0]; // x - (+0.0) == x for every x
   else if (divSelfIsOne && x.op == TT.OP_FDIV && x.a[0] == x.a[1]) r = TT.cfp(1.0, x.bytes);
   else if (x.op == TT.OP_FSUB && TT.t[x.a[0]].op == TT.OP_CF && TT.t[x.a[0]].k == INT64_MIN) r = canon(TT.mk(TT.OP_FNEG, {x.a[1]}, 0, x.bytes));
+  else if (x.op == TT.OP_FABS && TT.t[x.a[0]].op == TT.OP_FMUL && TT.t[x.a[0]].a[0] == TT.t[x.a[0]].a[1]) r = x.a[0]; // |x*x| == x*x (LLVM performs the same fold)
+  else if (x.op == TT.OP_FABS && (TT.t[x.a[0]].op == TT.OP_FABS || TT.t[x.a[0]].op == TT.OP_SQRT)) r = x.a[0];
+  else if (op.compare(0, 5, "libm.") == 0 && x.a.size() == 1 && (TT.t[x.a[0]].op == TT.OP_FNEG || TT.t[x.a[0]].op == TT.OP_FABS)) {
+    // parity of the elementary functions (the compiler applies the same identities to the scalar reference)
+    std::string f = op.substr(5); if (f.size() > 1 && f.back() == 'f' && f != "erf") f.pop_back();
+    bool even = f == "cos" || f == "cosh"; bool odd = f == "sin" || f == "tan" || f == "sinh" || f == "tanh" || f == "asin" || f == "atan" || f == "cbrt" || f == "asinh" || f == "atanh" || f == "erf";
+    int inner = TT.t[x.a[0]].a[0];
+    if (even) r = canon(TT.mk(x.op, {inner}, x.k, x.bytes));
+    else if (odd && TT.t[x.a[0]].op == TT.OP_FNEG) r = canon(TT.mk(TT.OP_FNEG, {canon(TT.mk(x.op, {inner}, x.k, x.bytes))}, 0, x.bytes));
+  }
   else if (x.op == TT.OP_FNEG && TT.t[x.a[0]].op == TT.OP_FNEG) r = TT.t[x.a[0]].a[0];
   else if (x.op == TT.OP_FNEG && TT.t[x.a[0]].op == TT.OP_CF) r = TT.cfp(-TT.cfval(x.a[0]), x.bytes);
   else if (x.op == TT.OP_ADD && x.a[0] == x.a[1]) r = mk(TT.OP_MUL, {x.a[0], TT.cint(2, x.bytes)}, 0, x.bytes);
